@@ -63,6 +63,14 @@ func VerifHarness_C07_Native() {
 		q.MerkleProofs = [][]big.Int{p.MerkleProofs[0], p.MerkleProofs[0]}
 		pr, err = ps.ProveInsertion(&q)
 		verifAssert(err != nil && pr == nil, "wrong number of merkle proofs yields an error and no proof")
+		q = p
+		q.MerkleProofs = [][]big.Int{append(append([]big.Int{}, p.MerkleProofs[0]...), *big.NewInt(0))}
+		pr, err = ps.ProveInsertion(&q)
+		verifAssert(err != nil && pr == nil, "a genuine merkle proof with one extra sibling yields an error and no proof")
+		q = p
+		q.IdComms = append(append([]big.Int{}, p.IdComms...), *big.NewInt(0))
+		pr, err = ps.ProveInsertion(&q)
+		verifAssert(err != nil && pr == nil, "one extra commitment yields an error and no proof")
 		return
 	}
 	ps, err := SetupDeletion(uint32(depth), uint32(batch))
@@ -109,4 +117,16 @@ func VerifHarness_C07_Native() {
 		pr, err := ps.ProveDeletion(&q)
 		verifAssert(err != nil && pr == nil, "wrong merkle proof length yields an error and no proof")
 	}
+	q := p
+	q.MerkleProofs = [][]big.Int{append(append([]big.Int{}, p.MerkleProofs[0]...), *big.NewInt(0))}
+	pr, err = ps.ProveDeletion(&q)
+	verifAssert(err != nil && pr == nil, "a genuine merkle proof with one extra sibling yields an error and no proof")
+	q = p
+	q.IdComms = append(append([]big.Int{}, p.IdComms...), *big.NewInt(0))
+	pr, err = ps.ProveDeletion(&q)
+	verifAssert(err != nil && pr == nil, "one extra commitment yields an error and no proof")
+	q = p
+	q.DeletionIndices = append(append([]uint32{}, p.DeletionIndices...), 0)
+	pr, err = ps.ProveDeletion(&q)
+	verifAssert(err != nil && pr == nil, "one extra index yields an error and no proof")
 }
